@@ -79,7 +79,7 @@ def instances(tier, seed):
     # the same values built by CONCATENATION of operands that were rendered before (plain str operands for unformatted runs)
     for K in (2, 3):
         for first in (range(0, len(REDUCED), 3) if tier == "quick" else range(len(REDUCED))):
-            out.append({"name": "L2-concat-K%d-first%d" % (K, first), "fn": "lemma2", "timeout": T,
+            out.append({"name": "L2-concat-K%d-first%d" % (K, first), "fn": "lemma2p", "timeout": T,
                         "params": {"K": K, "first": first, "sample": K == 3, "via": "concat"}})
     for K in (0, 1, 2, 3):
         firsts = [None] if (K < 2) else list(range(len(REDUCED)))
@@ -265,6 +265,28 @@ def _l2_n():
     return len(_l2_patterns())
 
 
+def lemma2p(n0: int, n1: int, n2: int, sel: int, p: int) -> bool:
+    """
+    pre: n0 >= 0 and n1 >= 0 and n2 >= 0 and 0 <= sel < len(PATS)
+    post: _
+    """
+    from curtsies.formatstring import FmtStr, Chunk
+    from crosshair.core import realize
+    K = P["K"]
+    ns = [n0, n1, n2][:K]
+    ai = PATS[realize(sel)]
+    attl = [REDUCED[i] if isinstance(i, int) else i for i in ai]
+    f = _l2_build(ns, attl, K, SegStr.source)
+    fexp = FmtStr(*[Chunk(SegStr.source(i, ns[i]), attl[i]) for i in range(K)])     # the value the runs describe
+    out = str(f)
+    with NoTracing():
+        # position-function comparison (p is universally quantified): the string draws, at every position, the character
+        # the runs put there, in that run's displayed state; nothing else; default state at the end
+        ok = H.render_term(fexp, out, p)
+        nontrivial = z3.And(*[zint(x) >= 1 for x in ns])
+    return verdict(sbool(ok), sbool(nontrivial))
+
+
 def _l2_build(ns, attl, K, mk_text):
     from curtsies.formatstring import FmtStr, Chunk
     if P.get("via") != "concat":
@@ -421,6 +443,9 @@ def concrete(fn, params, args):
             return {"ok": False, "observed": repr(s), "expected": "only text and supported SGR sequences", "call": "str(%r)" % f}
         return {"ok": r[0] == want and r[1] == {}, "observed": fmt_cells(r[0]) + " | final state %r | %r" % (r[1], s),
                 "expected": fmt_cells(want) + " | final state {}", "call": "str(%r)" % f}
+    if fn == "lemma2p":
+        fn = "lemma2"
+        args = list(args[:4])
     if fn == "lemma1":
         n = args[0]
         fg, bg, sty = _l1_patterns()[args[1]]
